@@ -211,3 +211,227 @@ Proof.
   repeat split; try (vm_compute; reflexivity);
     intros v Hv; simpl in Hv; repeat (destruct Hv as [<-|Hv]; [intro K; vm_compute in K; discriminate|]); destruct Hv.
 Qed.
+
+(* ======================================================================================
+   PLAQUETTES, second part (supersedes the "NOT covered" note at the top of this file for the
+   plaquette clause): the Sutherland–Hodgman clipper and the shoelace area used by the spec
+   checker are proved, and the replication rule is tied to the clipped areas.
+   Proofs/PolyAreaFacts.v, PolyCellFacts.v, PolyRegionFacts.v, PlaqCoverFacts.v.
+
+   Reading.  pts = the unwrapped vertex list of a plaquette (plaq_points), anticlockwise.
+   area2 = twice the signed shoelace area; clipped_area2 = area2 o clip_polygon is exactly what
+   the spec check S sums.  region of a polygon: in_poly P p = p on the left of (or on) every
+   directed edge; convex_ccw P = every vertex in the region (global convexity).
+   All statements are for vertex lists of ANY length.
+
+   NOT covered: non-convex plaquettes have no pointwise theorem at all (for them only the
+   signed-area identities C16_clip_area_additive / C16_nine_cells_area / C16_plaquette_drawn_area
+   hold, which do not need convexity, and their reading as "area of the region" is not proved);
+   that two DIFFERENT translates of one plaquette do not overlap inside the cell is a property
+   of the lattice (plaquettes tile the torus, C01), not of the plotting code — "exactly one"
+   is proved as: all of the area / every point is drawn (at least once) and each point of the
+   unwrapped plaquette reaches the open cell under one offset only (C16_offset_unique);
+   C16_clip_halfplane_sound needs the clipped polygon to be strictly convex (decidable,
+   strictly_convexb; not derived from the input in general); that area2 of a convex
+   anticlockwise polygon is twice the Lebesgue measure of its region is the definition of area
+   used here (no measure theory). ====================================================== *)
+From Koala Require Import Proofs.PolyAreaFacts Proofs.PolyCellFacts Proofs.PolyRegionFacts Proofs.PlaqCoverFacts.
+
+(* ---- the clipper, one half-plane  coord >= v (ge = true) / coord <= v (ge = false),
+   coord = x (xaxis = true) or y ---- *)
+(* area additivity: the two sides of any clip line share the (signed) area — every polygon *)
+Theorem C16_clip_area_additive : forall (xaxis : bool) (v : Q) (P : polygon),
+  area2 (sh_clip1 xaxis v true P) + area2 (sh_clip1 xaxis v false P) == area2 P.
+Proof. exact clip_area_add. Qed.
+Print Assumptions C16_clip_area_additive.
+
+(* clipping at v1 and then at v2 > v1 has the area of clipping at v2 *)
+Theorem C16_clip_area_absorb : forall (xaxis : bool) (v1 v2 : Q) (P : polygon), v1 < v2 ->
+  area2 (sh_clip1 xaxis v2 true (sh_clip1 xaxis v1 true P)) == area2 (sh_clip1 xaxis v2 true P).
+Proof. exact clip_area_absorb. Qed.
+Print Assumptions C16_clip_area_absorb.
+
+(* every vertex of the clipped polygon is a point of region(P) inside the half-plane *)
+Theorem C16_clip_vertices_sound : forall (xaxis : bool) (v : Q) (ge : bool) (P : polygon),
+  convex_ccw P ->
+  Forall (fun w => in_poly P w /\ hp_inside xaxis v ge w = true) (sh_clip1 xaxis v ge P).
+Proof. exact clip_vertices_sound. Qed.
+Print Assumptions C16_clip_vertices_sound.
+
+(* complete: region(P) /\ half-plane is contained in region(clip P) — every convex polygon,
+   no general-position hypothesis *)
+Theorem C16_clip_halfplane_complete : forall (xaxis : bool) (v : Q) (ge : bool) (P : polygon) (p : point),
+  convex_ccw P -> in_poly P p -> hp_inside xaxis v ge p = true -> in_poly (sh_clip1 xaxis v ge P) p.
+Proof. exact clip_halfplane_complete. Qed.
+Print Assumptions C16_clip_halfplane_complete.
+
+(* the clipped polygon is again convex anticlockwise *)
+Theorem C16_clip_convex : forall (xaxis : bool) (v : Q) (ge : bool) (P : polygon),
+  convex_ccw P -> convex_ccw (sh_clip1 xaxis v ge P).
+Proof. exact clip_convex. Qed.
+Print Assumptions C16_clip_convex.
+
+(* sound: region(clip P) is contained in region(P) /\ half-plane, for a strictly convex
+   non-empty output (false without: an output reduced to a point has the whole plane as
+   "region") *)
+Theorem C16_clip_halfplane_sound : forall (xaxis : bool) (v : Q) (ge : bool) (P : polygon) (p : point),
+  convex_ccw P -> strictly_convex (sh_clip1 xaxis v ge P) -> sh_clip1 xaxis v ge P <> [] ->
+  in_poly (sh_clip1 xaxis v ge P) p -> in_poly P p /\ hp_inside xaxis v ge p = true.
+Proof. exact clip_halfplane_sound. Qed.
+Print Assumptions C16_clip_halfplane_sound.
+
+(* the four clips of clip_polygon: region(P) /\ closed unit cell  =  region(clip_polygon P) *)
+Theorem C16_cell_complete : forall (P : polygon) (p : point),
+  convex_ccw P -> in_poly P p -> in_unit_square p -> in_poly (clip_polygon P) p.
+Proof. exact cell_complete. Qed.
+Print Assumptions C16_cell_complete.
+Theorem C16_cell_sound : forall (P : polygon) (p : point),
+  convex_ccw P -> proper (stage1 P) -> proper (stage2 P) -> proper (stage3 P) -> proper (clip_polygon P) ->
+  in_poly (clip_polygon P) p -> in_poly P p /\ in_unit_square p.
+Proof. exact cell_sound. Qed.
+Print Assumptions C16_cell_sound.
+
+(* ---- "covered exactly once", in measure: a polygon inside the 3x3 block of cells — the clipped
+   areas of its nine integer translates add up to its area (the pieces are the polygon cut
+   along the cell lines, moved into the cell) ---- *)
+Theorem C16_nine_cells_area : forall P : polygon, in_block P ->
+  fold_right Qplus 0 (map (fun d => clipped_area2 (ptranslate P (zpoint d))) nine) == area2 P.
+Proof. exact nine_cells_area. Qed.
+Print Assumptions C16_nine_cells_area.
+
+(* translates by 2 or more never reach the cell *)
+Theorem C16_plaquette_nine_suffice : forall (pts : polygon) (dx dy : Z),
+  in_open_block pts -> (2 <= Z.abs dx \/ 2 <= Z.abs dy)%Z ->
+  clipped_area2 (ptranslate pts (zpoint (dx, dy))) == 0.
+Proof. exact plaquette_nine_suffice. Qed.
+Print Assumptions C16_plaquette_nine_suffice.
+
+(* each point of the unwrapped plaquette is inside the open cell under at most one offset *)
+Theorem C16_offset_unique : forall (c : Q) (a b : Z),
+  0 < c + inject_Z a -> c + inject_Z a < 1 -> 0 < c + inject_Z b -> c + inject_Z b < 1 -> a = b.
+Proof. exact offset_unique. Qed.
+Print Assumptions C16_offset_unique.
+
+(* ---- the replication rule of plot_plaquettes (generic position: no vertex on a cell line;
+   one vertex in the cell: the walk of plot_plaquettes ends at a stored position) ---- *)
+(* a translate whose clipped area is not zero is drawn *)
+Theorem C16_plaquette_cover_translates : forall (pts : polygon) (dx dy : Z),
+  off_line pts true 0 -> off_line pts true 1 -> off_line pts false 0 -> off_line pts false 1 ->
+  has_cell_vertex pts ->
+  (dx = (-1)%Z \/ dx = 0%Z \/ dx = 1%Z) -> (dy = (-1)%Z \/ dy = 0%Z \/ dy = 1%Z) ->
+  ~ clipped_area2 (ptranslate pts (zpoint (dx, dy))) == 0 ->
+  In (ptranslate pts (zpoint (dx, dy)))
+     (replicate_polygon pts (pads (poly_lines pts) true) (pads (poly_lines pts) false)).
+Proof. exact plaquette_cover_translates. Qed.
+Print Assumptions C16_plaquette_cover_translates.
+
+(* the drawn polygons carry all of the plaquette's area *)
+Theorem C16_plaquette_drawn_area : forall pts : polygon,
+  off_line pts true 0 -> off_line pts true 1 -> off_line pts false 0 -> off_line pts false 1 ->
+  has_cell_vertex pts -> in_block pts ->
+  fold_right Qplus 0 (map clipped_area2
+     (replicate_polygon pts (pads (poly_lines pts) true) (pads (poly_lines pts) false))) == area2 pts.
+Proof. exact plaquette_drawn_area. Qed.
+Print Assumptions C16_plaquette_drawn_area.
+
+(* pointwise, strictly convex plaquettes: a point r of the plaquette that lies in the open cell
+   under the offset (dx,dy) — any integers — is covered: that translate is drawn *)
+Theorem C16_plaquette_cover_pointwise : forall (pts : polygon) (r : point) (dx dy : Z),
+  strictly_convex pts ->
+  off_line pts true 0 -> off_line pts true 1 -> off_line pts false 0 -> off_line pts false 1 ->
+  has_cell_vertex pts -> in_block pts ->
+  in_poly pts r -> in_open_cell (padd r (zpoint (dx, dy))) ->
+  In (ptranslate pts (zpoint (dx, dy)))
+     (replicate_polygon pts (pads (poly_lines pts) true) (pads (poly_lines pts) false)).
+Proof. exact plaquette_cover_pointwise. Qed.
+Print Assumptions C16_plaquette_cover_pointwise.
+
+(* the drawn polygons are translates by pairwise different offsets out of the nine *)
+Theorem C16_replicate_offsets_nodup : forall (pts : polygon) (lines : list seg),
+  exists ds : list (Z * Z), NoDup ds /\ incl ds nine /\
+    replicate_polygon pts (pads lines true) (pads lines false) = map (fun d => ptranslate pts (zpoint d)) ds.
+Proof. exact replicate_offsets_nodup. Qed.
+Print Assumptions C16_replicate_offsets_nodup.
+
+(* ---- non-vacuity: a hexagon (honeycomb plaquette) around the cell corner (1,1) ---- *)
+Definition ex_hex : polygon :=
+  [(53#40, 21#20); (47#40, 13#10); (7#8, 13#10); (29#40, 21#20); (7#8, 4#5); (47#40, 4#5)].
+Definition ex_hex_drawn : list polygon :=
+  replicate_polygon ex_hex (pads (poly_lines ex_hex) true) (pads (poly_lines ex_hex) false).
+
+Lemma ex_hex_off (xaxis : bool) (l : Q) : (l = 0 \/ l = 1) -> off_line ex_hex xaxis l.
+Proof.
+  intros [-> | ->] w Hw; destruct xaxis; unfold ex_hex in Hw; cbn [In] in Hw;
+    repeat (destruct Hw as [<-|Hw]; [intro K; vm_compute in K; discriminate|]); destruct Hw.
+Qed.
+
+Example C16_plaquette_cover_nonvacuous :
+  convex_ccw ex_hex /\ strictly_convex ex_hex /\
+  off_line ex_hex true 0 /\ off_line ex_hex true 1 /\ off_line ex_hex false 0 /\ off_line ex_hex false 1 /\
+  has_cell_vertex ex_hex /\ in_block ex_hex /\
+  (* four polygons are drawn, the offsets (-1,-1) (-1,0) (0,-1) (0,0) *)
+  ex_hex_drawn = map (fun d => ptranslate ex_hex (zpoint d)) [(-1, -1); (-1, 0); (0, -1); (0, 0)]%Z /\
+  (* their clipped areas: each positive, together the hexagon's *)
+  Forall (fun Q0 => 0 < clipped_area2 Q0) ex_hex_drawn /\
+  fold_right Qplus 0 (map clipped_area2 ex_hex_drawn) == area2 ex_hex /\ 0 < area2 ex_hex /\
+  (* the other five translates have clipped area 0 *)
+  Forall (fun d => clipped_area2 (ptranslate ex_hex (zpoint d)) == 0) [(-1, 1); (0, 1); (1, -1); (1, 0); (1, 1)]%Z /\
+  (* the cell corner (1,1) is a point of the hexagon; it is in the clipped piece of the drawn translate (0,0) *)
+  in_poly ex_hex (1, 1) /\ in_poly (clip_polygon ex_hex) (1, 1).
+Proof.
+  assert (HC : convex_ccw ex_hex) by (apply convex_ccwb_sound; vm_compute; reflexivity).
+  assert (HI : in_poly ex_hex (1, 1)).
+  { intros e He. unfold edges, ex_hex in He. cbn [last edges_from In] in He.
+    repeat (destruct He as [<-|He]; [unfold left_of; cbn [fst snd]; apply Qleb_iff; vm_compute; reflexivity|]). destruct He. }
+  split; [exact HC|]. split; [apply strictly_convexb_sound; vm_compute; reflexivity|].
+  split; [apply ex_hex_off; tauto|]. split; [apply ex_hex_off; tauto|].
+  split; [apply ex_hex_off; tauto|]. split; [apply ex_hex_off; tauto|].
+  split. { exists (7#8, 4#5). split; [unfold ex_hex; cbn [In]; tauto|]. unfold in_cell, px, py; cbn [fst snd]. repeat split; apply Qleb_iff || apply Qltb_iff; vm_compute; reflexivity. }
+  split. { unfold in_block, ex_hex. repeat (apply Forall_cons || apply Forall_nil);
+           unfold px, py; cbn [fst snd]; repeat split; apply Qleb_iff; vm_compute; reflexivity. }
+  split; [vm_compute; reflexivity|].
+  split. { assert (E : forallb (fun Q0 => Qltb 0 (clipped_area2 Q0)) ex_hex_drawn = true) by (vm_compute; reflexivity).
+           rewrite forallb_forall in E. apply Forall_forall. intros Q0 HQ. apply Qltb_iff. exact (E Q0 HQ). }
+  split; [apply Qeqb_iff; vm_compute; reflexivity|]. split; [apply Qltb_iff; vm_compute; reflexivity|].
+  split. { repeat (apply Forall_cons || apply Forall_nil); apply Qeqb_iff; vm_compute; reflexivity. }
+  split; [exact HI|].
+  apply cell_complete; [exact HC|exact HI|]. unfold in_unit_square, px, py; cbn [fst snd]. repeat split; apply Qleb_iff; vm_compute; reflexivity.
+Qed.
+
+(* the hypotheses of C16_cell_sound hold for every drawn translate of the hexagon: each of the
+   four clipping stages yields a strictly convex, non-empty polygon *)
+Example C16_cell_sound_nonvacuous :
+  Forall (fun Q0 => convex_ccw Q0 /\ proper (stage1 Q0) /\ proper (stage2 Q0) /\ proper (stage3 Q0) /\ proper (clip_polygon Q0))
+         ex_hex_drawn.
+Proof.
+  assert (E : forallb (fun Q0 => convex_ccwb Q0 &&
+      forallb (fun S0 => strictly_convexb S0 && negb (Nat.eqb (length S0) 0)) [stage1 Q0; stage2 Q0; stage3 Q0; clip_polygon Q0]) ex_hex_drawn = true)
+    by (vm_compute; reflexivity).
+  rewrite forallb_forall in E. apply Forall_forall. intros Q0 HQ. pose proof (E Q0 HQ) as K.
+  apply andb_true_iff in K. destruct K as [K1 K2]. rewrite forallb_forall in K2.
+  assert (P0 : forall S0, In S0 [stage1 Q0; stage2 Q0; stage3 Q0; clip_polygon Q0] -> proper S0).
+  { intros S0 HS. pose proof (K2 S0 HS) as K3. apply andb_true_iff in K3. destruct K3 as [K4 K5].
+    split; [apply strictly_convexb_sound; exact K4|]. intro E0. rewrite E0 in K5. discriminate. }
+  split; [apply convex_ccwb_sound; exact K1|].
+  repeat split; apply P0; cbn [In]; tauto.
+Qed.
+
+(* ---- the same two statements on the model of plot_plaquettes itself: plaq_polygons L pl is
+   the list of polygons handed to PolyCollection, plaq_points L pl the unwrapped walk ---- *)
+Theorem C16_plaq_polygons_drawn_area : forall (L : plat) (pl : plaq),
+  let pts := plaq_points L pl in
+  off_line pts true 0 -> off_line pts true 1 -> off_line pts false 0 -> off_line pts false 1 ->
+  has_cell_vertex pts -> in_block pts ->
+  fold_right Qplus 0 (map clipped_area2 (plaq_polygons L pl)) == area2 pts.
+Proof. exact plaq_polygons_drawn_area. Qed.
+Print Assumptions C16_plaq_polygons_drawn_area.
+
+Theorem C16_plaq_polygons_cover_pointwise : forall (L : plat) (pl : plaq) (r : point) (dx dy : Z),
+  let pts := plaq_points L pl in
+  strictly_convex pts ->
+  off_line pts true 0 -> off_line pts true 1 -> off_line pts false 0 -> off_line pts false 1 ->
+  has_cell_vertex pts -> in_block pts ->
+  in_poly pts r -> in_open_cell (padd r (zpoint (dx, dy))) ->
+  In (ptranslate pts (zpoint (dx, dy))) (plaq_polygons L pl).
+Proof. exact plaq_polygons_cover_pointwise. Qed.
+Print Assumptions C16_plaq_polygons_cover_pointwise.
